@@ -225,6 +225,7 @@ pub struct Ctx {
     pub marks: bool,
     pub inconclusive: Vec<String>,
     sample_cap: usize,
+    pub shrink_budget_s: u64,
 }
 
 impl Ctx {
@@ -243,6 +244,7 @@ impl Ctx {
             marks: false,
             inconclusive: vec![],
             sample_cap: 2,
+            shrink_budget_s: 90,
         }
     }
 
@@ -408,10 +410,13 @@ impl Ctx {
                 self.counting = false;
                 let mut best = f;
                 let mut iters = 0;
+                let shrink_start = std::time::Instant::now();
                 if tree.simplify() {
                     loop {
                         iters += 1;
-                        if iters > 3000 {
+                        // shrinking is bounded by effort and by time (slow failures such as a stuck
+                        // server cost tens of seconds per attempt)
+                        if iters > 3000 || shrink_start.elapsed().as_secs() > self.shrink_budget_s {
                             break;
                         }
                         let v = tree.current();
